@@ -167,6 +167,9 @@ type result struct {
 	err  error
 	n    int
 	any  interface{}
+	// F-RESET: the body breaks after cut bytes
+	reset bool
+	cut   int
 }
 
 type target interface {
@@ -417,7 +420,7 @@ func (w *World) submit(c *Call) result {
 	if w.Cfg.Immediate {
 		w.mu.Lock()
 		defer w.mu.Unlock()
-		if c.Client.Dead {
+		if c.Client.Dead || w.frozen {
 			return result{err: ErrClientDead}
 		}
 		return w.applyLocked(c, FNone, 0, 1)
@@ -453,8 +456,27 @@ func (h *Handle) Get(_ context.Context, k string) (io.ReadCloser, error) {
 	if r.err != nil {
 		return nil, r.err
 	}
+	if r.reset {
+		return &brokenReader{inner: h.reader(r.data[:r.cut]), key: k}, nil
+	}
 	return h.reader(r.data), nil
 }
+
+// brokenReader delivers what its inner reader holds, then a transient error instead of EOF (F-RESET).
+type brokenReader struct {
+	inner io.ReadCloser
+	key   string
+}
+
+func (b *brokenReader) Read(p []byte) (int, error) {
+	n, err := b.inner.Read(p)
+	if err == io.EOF {
+		err = fmt.Errorf("sim: connection reset while reading %s: %w", b.key, ErrTransient)
+	}
+	return n, err
+}
+
+func (b *brokenReader) Close() error { return b.inner.Close() }
 
 func (h *Handle) reader(data []byte) io.ReadCloser {
 	cp := append([]byte(nil), data...)
@@ -595,6 +617,9 @@ func (h *Handle) GetVersion(_ context.Context, k, version string) (io.ReadCloser
 	r := h.call(&Call{Op: OpGetVersion, Key: k, Version: version})
 	if r.err != nil {
 		return nil, r.err
+	}
+	if r.reset {
+		return &brokenReader{inner: h.reader(r.data[:r.cut]), key: k}, nil
 	}
 	return h.reader(r.data), nil
 }
